@@ -6,7 +6,7 @@ From GoSh Require Import Base.Bytes Base.Outcome Store.Env Store.EnvSpec.
 From GoSh Require Import Arith.ASyntax Arith.AEval.
 From GoSh Require Import Expand.Expand Expand.Spec Lex.Quote Lex.Heredoc Lex.HeredocExp Lex.Alias Lex.AliasStream.
 From GoSh Require Import Parse.Skel Parse.Grammar Lex.Layout Print.Heredocs.
-From GoSh Require Import Ast.Ends Lex.Reprint Lex.Reprint2.
+From GoSh Require Import Ast.Ends Lex.Reprint Lex.Reprint2 Lex.Reprint3.
 From GoSh Require Import Pattern.Regex Pattern.PCompile Pattern.Match Pattern.PSpec Pattern.Glob.
 Extraction Language OCaml.
 Extraction "model.ml"
@@ -25,5 +25,5 @@ Extraction "model.ml"
   Spec.split_spec Spec.split_model Spec.posix_table Expand.expand Expand.word_size Expand.join_all Expand.ifs_value
   Expand.expand_top Expand.split_field Expand.fempty Expand.funquote
   Grammar.parse_tokens Grammar.parse_subst Skel.sk_word Layout.scan_gap Layout.scan_linebreak Heredocs.hrun Heredocs.reader
-  Ends.end_part Ends.word_end Ends.layout Reprint.print_parts Reprint.print_pexp Reprint2.scan_word2 Reprint2.print_parts2
+  Ends.end_part Ends.word_end Ends.layout Reprint.print_parts Reprint.print_pexp Reprint2.scan_word2 Reprint2.print_parts2 Reprint3.scan_word3 Reprint3.print_parts3
   AEval.eval_model AEval.eval_top_i AEval.eval_c AEval.c_defined AEval.eager_safe AEval.numeric_store AEval.runes_of AEval.parse_int0.
